@@ -716,6 +716,7 @@ BUILTINS = {
     "builtins.range": lambda *a: range(*a),
     "builtins.bool": lambda x=False: bool(x),
     "builtins.callable": lambda x: isinstance(x, (Closure, Stub, ClassVal)) or callable(x),
+    "builtins.id": id,
     "builtins.type": lambda x: (x.attrs.get("__class__") if isinstance(x, Obj) and "__class__" in x.attrs else
                                 (Interp.class_val_static(x) if isinstance(x, Obj) else type(x))),
     "builtins.isinstance": None,
